@@ -187,3 +187,42 @@ def c06(chk):
     spec_mutant(chk, "garbage_reaches_service", "AnemoRpc.tla", "MC_Rpc_hostile.cfg",
                 [("AnemoRpc.tla", 'Invoke(q) == /\\ Live /\\ ss[q] = "reading" /\\ ~reset[q] /\\ ~bad[q]',
                   'Invoke(q) == /\\ Live /\\ ss[q] = "reading" /\\ ~reset[q]')], workers=4)
+
+
+@prop("C08")
+def c08(chk):
+    chk.rule = ("cases = (how the network was shut down: explicit / twice / concurrently / last handle dropped, what was in flight: "
+                "RPCs both ways, a hanging outbound dial, an arriving inbound handshake, idle-wait bound, which side dialed) per "
+                "recorded virtual-time run + (teardown point: idle handles / handles dropped / parked at shut.closed, shut.aborted, "
+                "h.closing / after shutdown / random instant) per real-thread teardown trial; all non-trivial")
+    chk.assumptions = ["re-bindability and runtime teardown are OS / tokio effects observed on real sockets and threads; their "
+                       "exploration is gate-driven and randomised, not exhaustive"]
+    chk.add_mc(tlc_mc("AnemoShut.tla", "MC_Shut.cfg", workers=2, timeout=300))
+    runs = 32 if quick(chk) else 800
+    summ = harness("c08", out=os.path.join(vlib.WORK, "C08"), seed=chk.seed, runs=runs, jobs=12, files=8)
+    summ["args"] = {}
+    import copy
+    s2 = copy.deepcopy(summ)
+    trace_check(chk, "AnemoConnTrace.tla", "AnemoConnTrace.cfg", summ, label="shutdown")
+    trace_check(chk, "AnemoRpcTrace.tla", "AnemoRpcTrace.cfg", s2, label="shutdown-rpc")
+    chk.traces -= len(s2["runs"])
+    count_cases(chk, summ, lambda r: (r["kind"], r["bound_ms"], r["took_ms"] // 100) if r["ev"] == "obs.shutdown_result" else None)
+    sample_events(chk, summ, ("obs.shutdown_result", "obs.api_after"), n=3)
+    # real threads: runtime teardown at every point
+    td = harness("teardown", trials=28 if quick(chk) else 420, seed=chk.seed)
+    chk.parts.setdefault("teardown", []).append({"trials": len(td["trials"])})
+    for t in td["trials"]:
+        chk.case(("teardown", t["mode"], t["seed"]))
+        if t["hang"]:
+            chk.violation("teardown:hang:%s" % t["mode"],
+                          "tearing the runtime down hung (mode %s, seed %d)" % (t["mode"], t["seed"]), t)
+        for lk in t.get("leaks", []):
+            chk.violation("teardown:leak:%s" % t["mode"], "%s (mode %s, seed %d)" % (lk, t["mode"], t["seed"]), t)
+        for p in t["panics"]:
+            chk.violation("teardown:panic:%s:%s" % (t["mode"], p.split("\n")[-1][:60]),
+                          "panic during runtime teardown (mode %s, seed %d): %s" % (t["mode"], t["seed"], p[:200]), t)
+    chk.sample(td["trials"][2])
+    # the defect that was repaired in /repo, as a spec mutant: asserting instead of cleaning up
+    spec_mutant(chk, "assert_empty_after_join", "AnemoShut.tla", "MC_Shut.cfg",
+                [("AnemoShut.tla", "  /\\ lostSent' = lostSent \\cup act /\\ act' = {} /\\ mgr' = \"draining\"\n  /\\ UNCHANGED <<hs, rt, panicked, replied>>",
+                  "  /\\ panicked' = (act # {}) /\\ mgr' = \"draining\"\n  /\\ UNCHANGED <<hs, rt, replied, act, lostSent>>")], workers=2)
